@@ -84,6 +84,22 @@ def gen_cases(chk):
         cfg = "szMode=SZ_BEST_SPEED" + (";quantization_intervals=%d" % q if q else "") + rng.choice(("", ";sampleDistance=3", ";predThreshold=0.5"))
         bits = [f32b(x) if ty == 0 else f64b(x) for x in v]
         k1.append("rtr %x %s %s %x %s %s 0 %s x:%s" % (ty, tup5((n,)), tup5((n,)), mode, dbits(absb), dbits(rel), cfg, ",".join("%x" % b for b in bits)))
+    # (A2) 2-D float arrays through the SZ-1.4 2-D kernel (no regression), explicit values, compared bit for bit with the model
+    for _ in range(300 if thorough else 60):
+        r1, r2 = rng.choice(((5, 7), (8, 8), (3, 40), (30, 3), (16, 33), (2, 11), (11, 2), (21, 21)))
+        n = r1 * r2
+        v = gen_array(n, rng, 0)
+        if rng.random() < 0.5:      # a smooth surface plus a little noise: the Lorenzo predictor hits, the re-check and the interval edge get exercised
+            a_, b_, c_ = rng.uniform(-3, 3), rng.uniform(-3, 3), rng.choice((1.0, 100.0, 1e-3))
+            v = [struct.unpack("<f", struct.pack("<f", c_ * (a_ * (k // r2) + b_ * (k % r2) + 0.01 * rng.uniform(-1, 1) + 0.3 * math.sin(0.7 * (k % r2) + 0.4 * (k // r2)))))[0] for k in range(n)]
+        rngv = max(v) - min(v)
+        mode = rng.choice((0, 0, 1, 3))
+        mag = max(abs(min(v)), abs(max(v)), 1e-300)
+        absb = rngv * rng.choice((1e-1, 1e-2, 1e-3, 1e-5, 1e-7)) if rngv > 0 else mag * 1e-3
+        rel = rng.choice((1e-1, 1e-2, 1e-4, 1e-6))
+        q = rng.choice((0, 0, 2, 32, 256, 65536, 4))
+        cfg = "szMode=SZ_BEST_SPEED;withLinearRegression=NO" + (";quantization_intervals=%d" % q if q else "") + rng.choice(("", ";sampleDistance=3", ";predThreshold=0.5"))
+        k1.append("rtr 0 %s %s %x %s %s 0 %s x:%s" % (tup5((r1, r2)), tup5((r1, r2)), mode, dbits(absb), dbits(rel), cfg, ",".join("%x" % f32b(x) for x in v)))
     # (B) every rank / kernel / configuration: bound oracle on the implementation
     shapes = [(64,), (1000,), (30, 40), (17, 33), (100, 100), (8, 9, 10), (16, 17, 18), (6, 6, 6), (3, 4, 5, 6), (6, 7, 6, 7), (2, 3, 30, 5)]
     if thorough:
@@ -166,9 +182,15 @@ def run(chk):
         info = stream_fields(d.get("stream", "_"), ty)
         if not info or info["const"] or info["lossless"] or info["regression"]:
             continue
-        mcases.append("%s %x %x %s" % ("fk1" if ty == 0 else "dk1", info["prec"], info["intervals"], a[9][2:]))
+        cd = [int(x, 16) for x in a[3].split(",")]
+        if sum(1 for x in cd if x > 1) == 2:
+            mcases.append("fk2 %x %x %x %s" % (info["prec"], info["intervals"], cd[4], a[9][2:]))
+        else:
+            mcases.append("%s %x %x %s" % ("fk1" if ty == 0 else "dk1", info["prec"], info["intervals"], a[9][2:]))
         midx.append((i, info))
     mo = lib.run_cases(model, mcases, timeout=3000)
+    chk.cov["model_runs_2d_float"] = sum(1 for m in mcases if m.startswith("fk2"))
+    chk.cov["model_runs_1d"] = sum(1 for m in mcases if not m.startswith("fk2"))
     mres = {i: (kv(m), info) for (i, info), m in zip(midx, mo)}
     nfail = nbad = ncmp = 0
 
